@@ -122,25 +122,30 @@ pub fn exec_misc(input: &Value) -> Value {
 }
 
 /// a token whose disclosures compound to `levels` x `depth` nesting; every single JSON text stays below
-/// serde_json's own recursion limit
-pub fn deep_token(levels: usize, depth: usize) -> String {
-    // innermost first: disclosure i carries, at the bottom of `depth` nested objects, the _sd of disclosure i+1
+/// serde_json's own recursion limit. shape: "obj" (member disclosures, nested objects), "arr" (array-element
+/// disclosures, arrays nested directly in arrays), "mixed" (alternating)
+pub fn deep_token(levels: usize, depth: usize, shape: &str) -> String {
+    // innermost first: disclosure i carries, at the bottom of `depth` nested containers, the digest of disclosure i+1
     let mut discs: Vec<String> = Vec::new();
     let mut inner_digest: Option<String> = None;
+    let elem = |i: usize| shape == "arr" || (shape == "mixed" && i % 2 == 1);
     for i in (0..levels).rev() {
+        // the innermost container refers to the next disclosure in the way that disclosure's kind requires
         let mut v = match &inner_digest {
-            Some(d) => json!({"_sd": [d]}),
+            Some(d) => if elem(i + 1) { json!([{"...": d}]) } else { json!({"_sd": [d]}) },
             None => json!({"leaf": i}),
         };
-        for _ in 0..depth {
-            v = json!({ "n": v });
+        for k in 0..depth {
+            v = if shape == "arr" || (shape == "mixed" && k % 2 == 0) { json!([v]) } else { json!({ "n": v }) };
         }
-        let s = indep::b64url_encode(serde_json::to_string(&json!([format!("salt{}", i), "k", v])).unwrap().as_bytes());
+        let parts = if elem(i) { json!([format!("salt{}", i), v]) } else { json!([format!("salt{}", i), "k", v]) };
+        let s = indep::b64url_encode(serde_json::to_string(&parts).unwrap().as_bytes());
         inner_digest = Some(indep::hash("sha-256", &s));
         discs.push(s);
     }
     discs.reverse();
-    let payload = json!({"_sd": [inner_digest.unwrap()], "_sd_alg": "sha-256"});
+    let d0 = inner_digest.unwrap();
+    let payload = if elem(0) { json!({"a": [{"...": d0}], "_sd_alg": "sha-256"}) } else { json!({"_sd": [d0], "_sd_alg": "sha-256"}) };
     presentation_string(&sign_hs256(&payload), &discs, "")
 }
 
@@ -170,7 +175,7 @@ pub fn deep_child(token: &str) -> ! {
 pub fn exec_deep(input: &Value) -> Value {
     let levels = input["levels"].as_u64().unwrap_or(1) as usize;
     let depth = input["depth"].as_u64().unwrap_or(1) as usize;
-    let token = input["token"].as_str().map(|s| s.to_string()).unwrap_or_else(|| deep_token(levels, depth));
+    let token = input["token"].as_str().map(|s| s.to_string()).unwrap_or_else(|| deep_token(levels, depth, input["shape"].as_str().unwrap_or("obj")));
     let exe = std::env::current_exe().unwrap();
     let mut child = std::process::Command::new(exe)
         .arg("deep-child")
@@ -250,13 +255,16 @@ pub fn generate(thorough: bool, seed: u64, em: &mut Emitter) {
     // huge lists: 10^4 disclosures, _sd with 10^5 entries
     em.case("misc", json!({"gen": "huge_lists"}));
     // (iii) compounded nesting in a child process
-    for (levels, depth) in [(1usize, 100usize), (1, 126), (1, 127), (2, 63), (2, 64), (2, 100), (10, 100), (50, 100), (80, 100)] {
-        let token = deep_token(levels, depth);
-        let mut c = untrusted_case(&token, false, "deep");
-        c["levels"] = json!(levels);
-        c["depth"] = json!(depth);
-        c["nontrivial"] = json!(true);
-        em.case("deep", c);
+    for shape in ["obj", "arr", "mixed"] {
+        for (levels, depth) in [(1usize, 100usize), (1, 124), (1, 126), (1, 127), (2, 62), (2, 63), (2, 64), (2, 100), (10, 100), (50, 100), (80, 100)] {
+            let token = deep_token(levels, depth, shape);
+            let mut c = untrusted_case(&token, false, "deep");
+            c["levels"] = json!(levels);
+            c["depth"] = json!(depth);
+            c["shape"] = json!(shape);
+            c["nontrivial"] = json!(true);
+            em.case("deep", c);
+        }
     }
     // (iv) time claims at the edge of u64 through the JWT library's arithmetic
     let t = super::jwtk::now();
